@@ -26,7 +26,7 @@ PROP = "C19"
 MUTATING = {"mkdir", "rmdir", "unlink", "rename", "utime", "chmod", "symlink", "link", "truncate",
             "open-w", "os.open-w", "sendfile"}
 PLACEMENTS = ["sibling", "nested", "abs", "dotdot", "symlink", "prestale", "cli", "prefile"]
-REFUSALS = ["eq_src", "above_src", "above_dotdot", "above_symlink", "cli_above", "cli_eq_src"]
+REFUSALS = ["eq_src", "above_src", "above_dotdot", "above_symlink", "cli_above", "cli_eq_src", "above_deep", "above_deep2"]
 ERRNO_FOR = {
     "open-w": ["ENOSPC", "EACCES", "EIO", "EROFS", "EMFILE", "EISDIR"],
     "os.open-w": ["ENOSPC", "EACCES", "EROFS", "EMFILE"],
@@ -59,7 +59,7 @@ def gen_case(seed, idx):
     case = {"idx": idx, "world": w, "place": place, "refusal": refusal, "options": opts,
             "cwd": rng.choice(["proj", "proj", "root", "elsewhere"]),
             "pages": rng.random() < 0.5, "copy_subdir": rng.random() < 0.5,
-            "copy_outside": rng.choice([None, None, "abs", "rel_existing"]),
+            "copy_outside": rng.choice([None, None, "abs", "rel_existing"]), "two_src": rng.random() < 0.3,
             "media": rng.choice([None, "ok", "missing"]), "css": rng.random() < 0.4,
             "favicon": rng.random() < 0.3, "mathjax": rng.random() < 0.3, "extra_ft": rng.random() < 0.3,
             "graph_dir": rng.choice([None, "in", "out", "out_abs"]) if opts["graph"] else None,
@@ -142,6 +142,15 @@ def build(case, seed, root):
     elif place == "cli_eq_src":
         argv_extra = ["-o", "src"]
         out = P + "/src"
+    elif place in ("above_deep", "above_deep2"):
+        # two source directories; the second lies two or three levels below the output directory
+        deep = "build/generated/src" if place == "above_deep" else "build/a/b/src"
+        opts["src_dir"] = ["./src", "./" + deep]
+        opts["output_dir"] = "./build"
+        files["proj/%s/gen.f90" % deep] = "module genmod\n  !! generated source\nend module genmod\n"
+        files["proj/build/generated_README"] = "kept next to generated sources\n"
+        out = P + "/build"
+        srcdirs_extra = [P + "/" + deep]
     else:
         raise ValueError(place)
     allowed = [out]
@@ -203,6 +212,9 @@ def build(case, seed, root):
     if case.get("extra_ft"):
         opts["extra_filetypes"] = "inc !"
         files["proj/src/defs.inc"] = "!! documented extra file\ninteger :: incvar\n"
+    if case.get("two_src") and not case["refusal"]:
+        opts["src_dir"] = ["./src", "./more/src2"]
+        files["proj/more/src2/extra.f90"] = "module extramod\n  !! second source dir\nend module extramod\n"
     files["proj/proj.md"] = W.render_project_file(opts, "Body text.\n")
     cwdk = case["cwd"]
     if cwdk == "proj":
@@ -528,7 +540,14 @@ def minimise(case, seed, plan, sig, workdir, budget=60):
             return (not r["harness"]) and any(f[0] == sig for f in r["findings"])
         cur, steps = SH.shrink(case, case_candidates, test, budget=budget)
         return cur, plan
-    return case, plan
+
+    # faulted finding: the plan addresses its operation by (kind, path, occurrence), which stays
+    # meaningful while the world shrinks as long as that path is still written
+    def test_f(cand, slot):
+        r = evaluate(cand, seed, os.path.join(workdir, "s%d" % slot), "quick", plans=[plan])
+        return (not r["harness"]) and any(f[0] == sig for f in r["findings"])
+    cur, steps = SH.shrink(case, case_candidates, test_f, budget=budget)
+    return cur, plan
 
 
 def main():
